@@ -379,8 +379,11 @@ Proof.
     intros c'. unfold st_of. rewrite (refines_refusals s c m tape e HL Hr Hrm). cbn [fst].
     unfold spec_step. rewrite Hr. destruct m; cbn in Hc; try discriminate; reflexivity.
   - destruct (classA m) eqn:HA; [apply refines_classA; assumption|].
-    destruct m; cbn in HA, Hc; try discriminate;
-      first [ apply refines_version | apply refines_flush | apply refines_lopen; assumption | apply refines_link; assumption
-            | apply refines_write; assumption | apply refines_xattrcreate; assumption
-            | exfalso; unfold spec_reject in Hr; discriminate Hr ].
+    destruct m; cbn in HA, Hc; try discriminate.
+    + apply refines_version.
+    + apply refines_flush.
+    + apply refines_lopen; assumption.
+    + apply refines_link; assumption.
+    + apply refines_write; assumption.
+    + apply refines_xattrcreate; assumption.
 Qed.
